@@ -756,6 +756,15 @@ def p_C11(ctx):
     combos = [("dev", "elem", 0), ("release", "elem", 1)] + ([] if ctx.quick else [("dev", "elem", 2), ("dev", "zst", 0), ("release", "u32", 0)])
     for prof, elem, cap in combos:
         ctx.replay_and_validate(r.cases_path, attr_fault_replay, attr_fault_event, profile=prof, elem=elem, cap=cap, label="faults")
+    # code -> spec: random long histories (incl. LARGE arrays) with faults / leaks injected at random calls; everything after a
+    # fault is validated from the state the real crate was left in ("then or later")
+    def attr_fault_drive_event(case, ev):
+        f = ev.get("fault", {})
+        return ({"C11"} if f.get("kind") in ("panic_at", "lie") else {"C11", "C12"}), {"family": "fault-drive", "op": ev.get("ev"), "kind": "trace_rejected", "fault": f.get("kind")}
+    nh, steps = (250, 40) if ctx.quick else (3000, 80)
+    for prof, seed_off in (("dev", 21), ("release", 22)):
+        ctx.drive_and_validate("drive-faults", ["hist", ctx.seed + seed_off, nh, steps, 6, "{out}", "elem", "faults"], "TooDeeTrace",
+                               attr_fault_drive_event, profile=prof, invariants=("ShapeOK", "HandleOK"))
 
 
 def p_C12(ctx):
@@ -773,6 +782,15 @@ def p_C12(ctx):
     combos = [("dev", "elem", 0), ("release", "elem", 1), ("dev", "zst", 0)] + ([] if ctx.quick else [("dev", "u32", 2), ("release", "zst", 1)])
     for prof, elem, cap in combos:
         ctx.replay_and_validate(r.cases_path, attr_fault_replay, attr_fault_event, profile=prof, elem=elem, cap=cap, label="leaks")
+    # code -> spec: random long histories (incl. LARGE arrays) with faults / leaks injected at random calls; everything after a
+    # fault is validated from the state the real crate was left in ("then or later")
+    def attr_fault_drive_event(case, ev):
+        f = ev.get("fault", {})
+        return ({"C12"} if f.get("kind") == "forget" else {"C11", "C12"}), {"family": "fault-drive", "op": ev.get("ev"), "kind": "trace_rejected", "fault": f.get("kind")}
+    nh, steps = (250, 40) if ctx.quick else (3000, 80)
+    for prof, seed_off in (("dev", 21), ("release", 22)):
+        ctx.drive_and_validate("drive-faults", ["hist", ctx.seed + seed_off, nh, steps, 6, "{out}", "elem", "faults"], "TooDeeTrace",
+                               attr_fault_drive_event, profile=prof, invariants=("ShapeOK", "HandleOK"))
 
 
 
